@@ -1044,11 +1044,16 @@ qb_log_custom_close(int32_t t)
 
 	target = qb_log_target_get(t);
 
+	/* the logging thread may be writing to this target right now */
+	qb_log_thread_pause(target);
 	if (target->close) {
 		qb_atomic_int_set(&in_logger, QB_TRUE);
 		target->close(t);
 		qb_atomic_int_set(&in_logger, QB_FALSE);
 	}
+	/* ... and must leave it alone from now on */
+	_log_target_state_set(target, QB_LOG_STATE_DISABLED);
+	qb_log_thread_resume(target);
 	qb_log_target_free(target);
 }
 
